@@ -401,6 +401,15 @@ example :
     (rotFrom p (fun i => i + 100) 1).current = { keys := [4, 100], idOffset := 10, primary := 1 } ∧
     (lineage p (fun i => i + 100) 1).Nodup := by decide +kernel
 
+/-- (added by the ntske cluster, C28-e) a key set restored with `id_offset = u32::MAX` and primary 1: the wire id of
+    a cookie it issues wraps to 0 (`primary.wrapping_add(id_offset)`), and `decode` — `wrapping_sub` — still finds
+    key 1: hypotheses of `roundtrip` at the wrap-around corner, and its conclusion evaluated -/
+example :
+    let ks : KeySet Nat := { keys := [10, 11], idOffset := 4294967295, primary := 1 }
+    ∃ b e, encode ks exCookie exNonce exCt = some (b, e) ∧ b.take 4 = [0, 0, 0, 0] ∧ e.key = 11 ∧
+      decode [e] ks b = some exCookie :=
+  ⟨_, _, rfl, by decide +kernel, by decide +kernel, by decide +kernel⟩
+
 end NtpVerif.C26
 
 #print axioms NtpVerif.C26.roundtrip
